@@ -90,3 +90,74 @@ Theorem C02_accepts_ideal : forall L cap buf t n, bytes_ok buf -> len buf < SIZE
   (load L cap buf = LOk t n <-> load_ideal L cap buf = LOk t n).
 Proof. exact PIdeal_proofs.C02_accepts_ideal. Qed.
 Print Assumptions C02_accepts_ideal.
+
+(* ------------------------------------------------------------------------------------------ *)
+(* Translator tie of the decoder glue (translator/effects.py, gen/Gen_effects_load.v regenerated from
+   builder_callbacks.c and cbor.c on every run; Bridge_effects_load.v; HPlansLoad_proofs.v): the
+   model's [append] — the case analysis on the item on top of the stack, the count-down of a
+   definite container with the cascade at 0, the key / value parity of a map, the tag case — and
+   the acceptance condition of a break are what the plans generated from _cbor_builder_append and
+   cbor_builder_indef_break_callback say; a definite map of n pairs is pushed expecting 2 n items. *)
+From Coq Require Import ZArith String.
+From CB Require Import GenLeafTypes HPlans HPlansLoad HPlans_proofs HPlansLoad_proofs Bridge_effects_load.
+From CBGen Require Import Gen_effects_load.
+Local Open Scope string_scope.
+Local Open Scope list_scope.
+Local Open Scope N_scope.
+
+Theorem C02_code_append_plan : forall cf se size sub ty definite c,
+  size < 2^64 -> sub < 2^64 -> (0 <= ty < 2^32)%Z ->
+  G_cbor_builder_append cf (Z.of_N size) (Z.of_N sub) se (dst_z definite) ty c =
+  builder_append_plan cf se size sub ty definite c.
+Proof. exact bridge_plan_builder_append. Qed.
+Print Assumptions C02_code_append_plan.
+
+Theorem C02_code_append_followed : forall it f rest,
+  frame_wf f -> frame_sub f < 2 ^ 64 -> len (f :: rest) < 2 ^ 64 ->
+  let stk := f :: rest in
+  let p := G_cbor_builder_append 0 (Z.of_N (len stk)) (Z.of_N (frame_sub f)) 0
+             (dst_z (negb (frame_indef f))) (frame_ty f) (insert_ok f) in
+  PBuild.append it stk =
+    if plan_cascades p then PBuild.append (frame_close f it) rest
+    else if (fieldZ "creation_failed" p =? 1)%Z then fail_mem stk
+    else if (fieldZ "syntax_error" p =? 1)%Z then fail_syntax stk
+    else ok_stack (frame_put f it (fieldN "subitems" p) :: rest).
+Proof. exact code_append_followed. Qed.
+Print Assumptions C02_code_append_followed.
+
+Theorem C02_cascade_pops_first : forall cf se size sub ty definite c,
+  let p := builder_append_plan cf se size sub ty definite c in
+  plan_cascades p = true ->
+  exists evs, p_reqs p = evs ++ [call_pop 1; call_append (top_item 1) 1] /\
+              existsb (is_call "_cbor_builder_append") evs = false /\
+              existsb (is_call "_cbor_stack_pop") evs = false.
+Proof. exact cascade_pops_first. Qed.
+
+Theorem C02_map_parity_rule : forall cf se size sub definite c,
+  size <> 0 ->
+  let p := builder_append_plan cf se size sub TY_MAP definite c in
+  (existsb (is_call "_cbor_map_add_value") (p_reqs p) = odd sub) /\
+  (existsb (is_call "_cbor_map_add_key") (p_reqs p) = negb (odd sub)).
+Proof. exact map_parity_rule. Qed.
+
+Theorem C02_code_break_followed : forall L cap f rest dst,
+  frame_wf f -> frame_sub f < 2 ^ 64 -> len (f :: rest) < 2 ^ 64 ->
+  let stk := f :: rest in
+  let p := Gcbor_builder_indef_break_callback (Z.of_N (len stk)) (Z.of_N (frame_sub f)) 0 dst (frame_ty f)
+             (if frame_indef f then 1 else 0)%Z in
+  callback L cap TBreak stk = (if plan_cascades p then PBuild.append (frame_break_close f) rest else fail_syntax stk) /\
+  (plan_cascades p = true ->
+     p_reqs p = [ReqCall "_cbor_is_indefinite" [AP (top_item 0)]; call_pop 0; call_append (top_item 0) 0]) /\
+  (plan_cascades p = false -> fieldZ "syntax_error" p = 1%Z).
+Proof. exact code_break_followed. Qed.
+Print Assumptions C02_code_break_followed.
+
+Theorem C02_code_map_start_followed : forall L cap n stk,
+  n < 2 ^ 64 -> len stk < 2 ^ 64 ->
+  let p := Gcbor_builder_map_start_callback 0 (Z.of_N (len stk)) (Z.of_N n) (alloc_ok cap 64 16 n) (negb (len stk =? L)) in
+  callback L cap (TMap n) stk =
+    if plan_cascades p then PBuild.append (IMap false []) stk
+    else if (fieldZ "creation_failed" p =? 1)%Z then fail_mem stk
+    else ok_stack (FMap false [] None n (push_subitems p) :: stk).
+Proof. exact code_map_start_followed. Qed.
+Print Assumptions C02_code_map_start_followed.
